@@ -26,6 +26,8 @@ DS = "xknx.secure.data_secure"
 
 
 def run(chk: Check, repo: Repo) -> None:
+    from .ds_common import block0_octet_is_the_wire_octet
+    block0_octet_is_the_wire_octet(chk, repo)
     rcv = sides(repo, "SecureData.get_plain_apdu")
     fi = rcv["CCM_ENCRYPTION"].fi
     chk.unit(fi)
